@@ -594,6 +594,16 @@ impl Explorer {
             (m, real) => {
                 let prop = if matches!(op, Op::Utf16 { .. } | Op::FromUtf8 { .. }) { 16 } else { 1 };
                 Self::viol(&mut out, prop, "outcome", format!("LeanString: {:?}, String model: {:?}", real, m));
+                // a refused request must surface as ReserveError (try_ forms) or as a panic carrying its
+                // message (plain forms) - never as some other result of the operation
+                if failed + refused > 0 && prop != 1 {
+                    Self::viol(
+                        &mut out,
+                        if failed > 0 { 5 } else { 6 },
+                        "failure-form",
+                        format!("an allocation request was refused and the call reported {:?} (String model: {:?})", real, m),
+                    );
+                }
                 pool.model[t] = model_before.clone();
             }
         }
